@@ -62,7 +62,11 @@ def h1_history(draw: Any) -> Dict[str, Any]:
                 draw(st.sampled_from([T, 2 * T + 0.5, 1000 * T]))
             steps.append({"op": "request", "delay": d,
                           "linger": draw(st.sampled_from([0.0, 0.0, T / 5, 3 * T])),
-                          "pause_inside": draw(st.sampled_from([None, None, 0.5, 0.99]))})
+                          "pause_inside": draw(st.sampled_from([None, None, 0.5, 0.99])),
+                          # the first bytes of a next request head arrive with this request and
+                          # the rest never does: idle again once the response has ended
+                          "tail_partial": draw(st.sampled_from([0, 0, 0, 1, 5, 25])),
+                          "terminate_inside": draw(st.sampled_from([False, False, False, True]))})
         elif kind == "pause":
             steps.append({"op": "pause", "dur": draw(st.sampled_from(pause_values(T)))})
         elif kind == "partial_head":
@@ -89,10 +93,14 @@ def h2_history(draw: Any) -> Dict[str, Any]:
                                      "terminated", "peer_loss"]))
         if kind == "stream":
             steps.append({"op": "stream", "delay": draw(st.sampled_from([0.0, T / 2, 3 * T,
-                                                                          1000 * T]))})
+                                                                          1000 * T])),
+                          # shutdown begins while the stream is open: it is not cut short, and
+                          # the connection goes as soon as the stream has ended
+                          "terminate_inside": draw(st.sampled_from([False, False, True]))})
         elif kind == "two_streams":
             steps.append({"op": "two_streams", "d1": draw(st.sampled_from([0.0, T / 2])),
-                          "d2": draw(st.sampled_from([T, 2.5 * T]))})
+                          "d2": draw(st.sampled_from([T, 2.5 * T])),
+                          "terminate_inside": draw(st.sampled_from([False, False, True]))})
         elif kind == "pause":
             steps.append({"op": "pause", "dur": draw(st.sampled_from(pause_values(T)))})
         elif kind == "terminated":
@@ -224,13 +232,25 @@ async def run_h1(env: Any, case: Dict[str, Any], app: Any) -> Dict[str, Any]:
             app.programs[path] = [["recv_all"], ["sleep", step["delay"]],
                                   ["respond", 200, [["content-length", "2"]], ["ok"]],
                                   ["recv_disc"], ["sleep", step["linger"]]]
-            conn.send(request_bytes(path))
+            conn.send(request_bytes(path) + request_bytes("/partial")[:step.get("tail_partial", 0)])
+            if step.get("tail_partial"):
+                case["_poisoned"] = True
+                nontrivial = True
             nreq += 1
             tm.busy()
             tm.notes.append(f"request at {t0} delay {step['delay']}")
             await env.settle0()
+            if step.get("terminate_inside") and step["delay"] > 0 and tm.terminated_at is None:
+                nontrivial = True
+                await env.sleep(step["delay"] / 4)
+                await env.set_terminated()
+                tm.terminated_at = env.now()
+                tm.notes.append(f"terminated at {tm.terminated_at} inside a request")
+                await env.settle0()
+                if tm.check(where + " (shutdown began inside the busy period)"):
+                    break
             if step["pause_inside"] is not None and step["delay"] > 0:
-                await env.sleep(step["delay"] * step["pause_inside"])
+                await env.sleep(max(0.0, t0 + step["delay"] * step["pause_inside"] - env.now()))
                 if step["delay"] * step["pause_inside"] >= T:
                     nontrivial = True
                 if tm.check(where + " (inside the busy period)"):
@@ -392,9 +412,19 @@ async def run_h2(env: Any, case: Dict[str, Any], app: Any) -> Dict[str, Any]:
             tm.busy()
             await env.settle0()
             longest = max(delays)
+            if step.get("terminate_inside") and longest > 0:
+                nontrivial = True
+                await env.sleep(longest / 4)
+                await env.set_terminated()
+                tm.terminated_at = env.now()
+                tm.notes.append(f"terminated at {tm.terminated_at} inside a stream")
+                await env.settle0()
+                client.pump()
+                if tm.check(where + " (shutdown began inside the busy period)"):
+                    break
             if longest >= T:
                 nontrivial = True
-                await env.sleep(longest / 2)
+                await env.sleep(max(0.0, t0 + longest / 2 - env.now()))
                 client.pump()
                 if tm.check(where + " (inside the busy period)"):
                     break
